@@ -1282,7 +1282,24 @@ impl Mon {
 
 	/// the miner: the real `mine_block::get_block` (through the verification hook) on the node's
 	/// chain and pool; a scratch chain decides whether the block is acceptable, then the node gets it
-	fn mine_block(&mut self, opts: Options) -> Option<usize> {
+	fn mine_block(&mut self, opts: Options, header_first: bool) -> Option<usize> {
+		if header_first {
+			// header-first propagation: the node knows the HEADER of a competing next block (built on
+			// the scratch chain) but not the block: the miner must still build on the BODY head
+			let parent = self.n.head;
+			if let Ok(b) = self.n.kit.assemble(parent, 1, &[], 0) {
+				if self.n.kit.builder().process_block(b.clone(), Options::SKIP_POW).is_ok() {
+					let st = self.n.state_after(parent, &b);
+					let id = self.n.kit.record(b.clone(), parent, vec!["header-only".into()], true);
+					self.n.states.insert(id, st);
+					let r = self.n.node.process_block_header(&b.header, Options::SKIP_POW);
+					let hh = self.n.node.header_head().map(|t| t.height).unwrap_or(0);
+					let bh = self.n.node.head().map(|t| t.height).unwrap_or(0);
+					self.n.stat(&format!("miner:header-first:header-accepted={}:header_head-ahead-by={}", r.is_ok(), hh.saturating_sub(bh)));
+					self.n.p_obs("header of a competing next block accepted");
+				}
+			}
+		}
 		let set = self.n.pool.read().prepare_mineable_transactions().unwrap_or_default();
 		let sigs: Vec<String> = set.iter().map(|t| self.n.psig(t)).collect();
 		let (txc, rxc) = std::sync::mpsc::channel();
@@ -1637,7 +1654,8 @@ fn run_monitor_history(work: &str, hist: usize, seed: u64, rounds: usize) -> (St
 			let parent = m.n.head;
 			if rng.chance(1, 2) {
 				let opts = pick_opts(&mut rng);
-				m.mine_block(opts);
+				let gap = rng.chance(1, 3);
+				m.mine_block(opts, gap);
 			} else {
 				let (txs, what) = block_content(&mut m.n, &mut rng, parent);
 				if let Some(id) = build_with_fallback(&mut m.n, parent, 1, txs) {
@@ -1655,7 +1673,7 @@ fn run_monitor_history(work: &str, hist: usize, seed: u64, rounds: usize) -> (St
 	} else {
 		m.monitor_pass(false);
 	}
-	m.mine_block(Options::MINE);
+	m.mine_block(Options::MINE, true);
 	let Mon { n, .. } = m;
 	let Node { out, stats, .. } = n;
 	(out, stats)
